@@ -14,10 +14,21 @@
 ;;   (load id libname)                (environment 'libname): OK or (ERR message)  -- module table state machine
 ;;   (resolve id datum)               (%resolve-import datum)  -- function-level tie to the translated code
 ;;   (drop id a b) (append id a b)    symbol-drop / symbol-append
+;;   (env id (iset ...) (name ...) KIND file)   round 3: the import is done by another kind of importer into the driver's own top-level
+;;                                    environment (the import sets carry a prefix unique to the case): KIND = interaction
+;;                                    (eval '(import ...) (interaction-environment)), load-file / load-port ((load x env) of a text whose
+;;                                    first form is the import), include ((eval '(include file) env)); file holds "(import iset ...)"
+;;   (lit id (iset ...) ((name key ...) ...) (ml ...))
+;;                                    round 3: literal probes.  (environment SUPPORT iset ...) where SUPPORT brings cond case guard ... under
+;;                                    the prefix c14:; for each name the probes named by the keys (ce ca se sa ge ga el us uq: the name in
+;;                                    the else / => position of cond, case, guard; as ellipsis / underscore of a local syntax-rules macro; as
+;;                                    unquote) and (ml name) for every ml (an mlit/elit macro of the generated libraries).  The name is
+;;                                    never in operator position.  Answer per name: (probe-results ... ml-results ...)
+;;   (load id libname KIND file)      KIND as above, or environment
 ;; probe of a name: the tagged value it evaluates to, or, when it is a procedure or a macro of the generated
 ;; libraries, the tagged value of (name); otherwise the symbol unbound.
 (import (scheme base) (scheme write) (scheme read) (scheme eval) (scheme file) (scheme process-context)
-        (scheme repl) (only (meta) %resolve-import symbol-drop symbol-append)
+        (scheme repl) (scheme load) (only (meta) %resolve-import symbol-drop symbol-append)
         (only (chibi ast) env-parent) (only (chibi) env-exports))
 
 ;;; BEGIN PROBE
@@ -70,6 +81,34 @@
 (define (c14-probe-closed env templates names)
   (map (lambda (t) (map (lambda (n) (c14-probe1c env t n)) names)) templates))
 
+;; ---- literal probes (round 3)
+(define c14-lit-templates
+  '((ce . (c14:cond (#f 0) (<> (c14:quote c14-else))))
+    (ca . (c14:cond ((c14:quote (7)) <> c14:car) (#t (c14:quote c14-fall))))
+    (se . (c14:case 3 ((1) 0) (<> (c14:quote c14-else))))
+    (sa . (c14:case 3 ((3) <> c14:list)))
+    (ge . (c14:guard (c14e (#f 0) (<> (c14:quote c14-else))) (c14:raise 1)))
+    (ga . (c14:guard (c14e ((c14:list c14e) <> c14:car)) (c14:raise 7)))
+    (el . (c14:let-syntax ((c14m (c14:syntax-rules () ((c14m c14v <>) (c14:quote (c14v <>))) ((c14m . c14r) (c14:quote c14-nomatch))))) (c14m 1 2 3)))
+    (us . (c14:let-syntax ((c14m (c14:syntax-rules () ((c14m <>) (c14:quote (<>))) ((c14m . c14r) (c14:quote c14-nomatch))))) (c14m 1)))
+    (uq . (c14:quasiquote (1 (<> 7))))))
+
+(define (c14-plain v)
+  (cond ((pair? v) (cons (c14-plain (car v)) (c14-plain (cdr v))))
+        ((or (symbol? v) (number? v) (boolean? v) (null? v)) v)
+        ((procedure? v) 'c14-proc)
+        (else 'c14-other)))
+
+(define (c14-lit1 env form)
+  (guard (e (#t 'unbound)) (c14-plain (eval form env))))
+
+(define (c14-probe-lit env plan mls)
+  (map (lambda (p)
+         (let ((n (car p)))
+           (append (map (lambda (k) (c14-lit1 env (c14-subst (cdr (assq k c14-lit-templates)) n))) (cdr p))
+                   (map (lambda (ml) (c14-lit1 env (list ml n))) mls))))
+       plan))
+
 (define (c14-out id x)
   (write-string "CASE ")
   (write id)
@@ -79,13 +118,34 @@
 
 ;;; END PROBE
 
+;; ---- importers other than (environment ...) (round 3): all of them import into this program's own top-level environment
+(define c14-top (interaction-environment))
+
+(define (c14-import-by kind isets file)
+  (case kind
+    ((environment) (apply environment isets))
+    ((interaction) (eval (cons 'import isets) c14-top) c14-top)
+    ((load-file) (load file c14-top) c14-top)
+    ((load-port) (call-with-input-file file (lambda (in) (load in c14-top))) c14-top)
+    ((include) (eval (list 'include file) c14-top) c14-top)
+    (else (error "unknown importer kind" kind))))
+
+(define c14-support
+  '(prefix (only (scheme base) cond case guard raise quote quasiquote list car let-syntax syntax-rules) c14:))
+
 (define (c14-run form)
   (let ((kind (car form)) (id (cadr form)))
     (case kind
       ((env)
        (let ((env (guard (e (#t (list 'IMPORT-ERROR (c14-msg e))))
-                    (apply environment (car (cddr form))))))
+                    (if (pair? (cddr (cddr form)))
+                        (c14-import-by (car (cddr (cddr form))) (car (cddr form)) (cadr (cddr (cddr form))))
+                        (apply environment (car (cddr form)))))))
          (c14-out id (if (pair? env) env (c14-probe env (cadr (cddr form)))))))
+      ((lit)
+       (let ((env (guard (e (#t (list 'IMPORT-ERROR (c14-msg e))))
+                    (apply environment c14-support (car (cddr form))))))
+         (c14-out id (if (pair? env) env (c14-probe-lit env (cadr (cddr form)) (car (cddr (cddr form))))))))
       ((envsc)
        (let ((env (guard (e (#t (list 'IMPORT-ERROR (c14-msg e))))
                     (apply environment (car (cddr form))))))
@@ -98,7 +158,11 @@
                              (lp (env-parent e) (+ k 1) (cons (env-exports e) acc))
                              (reverse acc)))))))
       ((load)
-       (c14-out id (guard (e (#t (list 'ERR (c14-msg e)))) (environment (car (cddr form))) 'OK)))
+       (c14-out id (guard (e (#t (list 'ERR (c14-msg e))))
+                     (if (pair? (cdr (cddr form)))
+                         (c14-import-by (cadr (cddr form)) (list (car (cddr form))) (car (cddr (cddr form))))
+                         (environment (car (cddr form))))
+                     'OK)))
       ((resolve)
        (c14-out id (guard (e (#t (list 'ERR (c14-msg e)))) (list 'OK (%resolve-import (car (cddr form)))))))
       ((drop)
